@@ -94,6 +94,15 @@ def stage_mc(module, cfg, workers=8, timeout=1500, expect_violation=None, label=
     return run
 
 
+LOCATE_MC = [stage_mc("MC_LocateWalk.tla", "MC_LocateWalk_gp6.cfg", workers=2),
+             stage_mc("MC_LocateWalk.tla", "MC_LocateWalk_gp7.cfg", workers=2),
+             stage_mc("MC_LocateWalk.tla", "MC_LocateWalk_3d.cfg", workers=4),
+             stage_mc("MC_LocateWalk.tla", "MC_LocateWalk_pinwheel.cfg", workers=4),
+             stage_mc("MC_LocateWalk.tla", "MC_LocateWalk_steplimit.cfg", workers=4),
+             stage_mc("MC_LocateWalk.tla", "MC_LocateWalk_pinwheel_cycles.cfg", workers=2, expect_violation=["NoScan"]),
+             stage_mc("MC_LocateWalk.tla", "MC_LocateWalk_notch.cfg", workers=2, expect_violation=["Complete"])]
+
+
 def stage_caches(ctx, cov):
     """Gen_Caches -> histories -> vdrive caches -> Trace_Caches"""
     import random
@@ -365,7 +374,13 @@ PLANS = {
                                       else ((e["ev"], json.dumps(e.get("args"), sort_keys=True), e.get("tag"))
                                             if e["ev"] == "Insert" and e.get("res", {}).get("err") in ("DuplicateCoordinates", "DuplicateUuid") else None))),
     "C10": dict(level="model_checking", families=[("queries", 14, 16)],
-                rule="for each corpus triangulation (constructed, then after insertions / a removal / flips+repair) every "
+                stages=LOCATE_MC,
+                rule="(i) exhaustive TLC check of the facet-walk mechanism model (spec/LocateWalk.tla: 2-D and 3-D Delaunay "
+                     "complexes, every lattice query in and around the hull, every hint; a pinwheel on which the walk cycles "
+                     "and a step limit of 3, both answered through the scan; design counterexamples: the walk does cycle on a "
+                     "non-Delaunay complex, and on a non-convex complex it reports Outside for a covered point); (ii) every "
+                     "recorded locate call must be the run of that same walk (LocateWalkOps) on the recorded complex from the "
+                     "recorded start cell - answer, step count and use of the fallback; (iii) for each corpus triangulation (constructed, then after insertions / a removal / flips+repair) every "
                      "lattice point of the bounding box extended by one unit (sampled above a cap) is located under every "
                      "hint: none, live cells, a stale key, a foreign key; both locate and locate_with_stats. distinct "
                      "non-trivial = distinct (history, query point) pairs",
